@@ -57,6 +57,7 @@ type c06job struct {
 	hunt     bool
 	seq      []*tak.Position // kind "dfpnseq": one solver proves these in a row
 	seqG     []*retroGraph
+	crossFresh bool // "dfpnseq" without an exact oracle: a solved verdict of the reused solver may not contradict a fresh solver's
 	seqWon   []int // "dfpnseq" of a known finding: the attacker wins call i's root within seqWon[i] plies (0: not known)
 	bigModel bool // follow-up run on a root where repetition was seen: larger model budget
 	rep      int  // DFPN: threefold repetitions met by this run
@@ -243,6 +244,20 @@ func (j *c06job) runSeq() {
 					}
 				} else if r.Result == prove.EvalTrue {
 					j.stats["known_sequence_calls_proven"]++
+				}
+			}
+			if j.crossFresh && i > 0 && r.Result != prove.EvalUnknown {
+				// no exact oracle for this configuration in the quick tier: `proven` of a fresh solver is sound (C06_dfpn_proven_sound),
+				// `disproven` of the repaired solver is sound (C06_dfpn_seq_sound) - the two may not contradict each other
+				fr, _ := prove.NewDFPN(&prove.DFPNConfig{Attacker: j.attacker, TableMem: int64(j.entries) * c06EntrySize}).Prove(p)
+				j.stats["reused_vs_fresh_compared"]++
+				if fr.Result != prove.EvalUnknown && fr.Result != r.Result {
+					class := "reused-solver-contradicts-fresh"
+					if r.Result == prove.EvalFalse {
+						class = "reused-solver-wrong-disproven"
+					}
+					fails = append(fails, fmt.Sprintf("ORACLE-FAIL %s | %s (call %d of the sequence: %s) | %s | a fresh solver answers %s",
+						class, in, i+1, ptn.FormatTPS(p), l1, verdictStr(fr.Result)))
 				}
 			}
 			for _, f := range one.out {
@@ -1157,6 +1172,56 @@ func runC06(c *ctx) {
 		knownSeqs++
 	}
 	c.stat("known_finding_sequences", int64(knownSeqs))
+
+	// the neighbourhood of that finding: 3x3 with 3 stones + capstone, one solver (attacker of the known sequence, large table)
+	// proves a first root that meets repetitions and then positions one and two plies around the known second roots and
+	// around the first root; no exact oracle in the quick tier (3.7e7 positions), the reused solver is compared with a fresh one
+	neighbourStreams := 0
+	for ki, k := range c06knownSeqs {
+		if ki%3 != 0 {
+			continue
+		}
+		cfg := tak.Config{Size: 3, Pieces: 3, Capstones: 1}
+		first, _ := c06customTPS(cfg, k.first)
+		second, _ := c06customTPS(cfg, k.second)
+		seen := map[string]bool{retroKey(first): true}
+		var near []*tak.Position
+		frontier := []*tak.Position{second, first}
+		for d := 0; d < 2; d++ {
+			var next []*tak.Position
+			for _, p := range frontier {
+				var buf [256]tak.Move
+				for _, m := range p.AllMoves(buf[:0]) {
+					q, err := p.Move(m)
+					if err != nil {
+						continue
+					}
+					if over, _ := q.GameOver(); over || seen[retroKey(q)] {
+						continue
+					}
+					seen[retroKey(q)] = true
+					next = append(next, q)
+				}
+			}
+			near = append(near, next...)
+			frontier = next
+		}
+		c.r.Shuffle(len(near), func(a, b int) { near[a], near[b] = near[b], near[a] })
+		if len(near) > 24 {
+			near = near[:24]
+		}
+		j := &c06job{kind: "dfpnseq", modelOK: false, entries: k.entries, attacker: k.att, crossFresh: true}
+		j.seq = append(j.seq, first)
+		j.seqG = append(j.seqG, nil)
+		for _, q := range near {
+			j.seq = append(j.seq, q)
+			j.seqG = append(j.seqG, nil)
+		}
+		j.root = j.seq[0]
+		jobs = append(jobs, j)
+		neighbourStreams++
+	}
+	c.stat("known_finding_neighbour_streams", int64(neighbourStreams))
 
 	c06runJobs(c, jobs)
 
